@@ -263,7 +263,8 @@ int json_parse_uint64(const char *buf, uint64_t *retval)
 	uint64_t val;
 
 	errno = 0;
-	while (*buf == ' ')
+	/* skip everything strtoull() itself would skip before the sign */
+	while (*buf == ' ' || (*buf >= '\t' && *buf <= '\r'))
 		buf++;
 	if (*buf == '-')
 		return 1; /* error: uint cannot be negative */
